@@ -21,8 +21,13 @@ from warnings import warn
 
 from .collections import PVLObject, PVLGroup, Quantity
 from .grammar import PVLGrammar, ODLGrammar, PDSGrammar, ISISGrammar
+from .grammar import OmniGrammar
 from .token import Token
-from .decoder import PVLDecoder, ODLDecoder, PDSLabelDecoder
+from .decoder import PVLDecoder, ODLDecoder, PDSLabelDecoder, OmniDecoder
+
+
+#: What the default loader decodes bare words with (see needs_quotes()).
+_permissive_decoder = OmniDecoder(grammar=OmniGrammar())
 
 
 class QuantTup(namedtuple("QuantTup", ["cls", "value_prop", "units_prop"])):
@@ -534,7 +539,17 @@ class PVLEncoder(object):
         # NULL, TRUE, FALSE and the reserved keywords (in any letter case)
         # would not.
         try:
-            return self.decoder.decode_simple_value(tok) != s
+            if self.decoder.decode_simple_value(tok) != s:
+                return True
+        except ValueError:
+            return True
+
+        # The default loader and the ISIS loader read bare words with the
+        # permissive OmniDecoder, which takes more spellings for numbers
+        # and times (a time with a zone offset, a sign inside a based
+        # integer) than this encoder's own decoder does.
+        try:
+            return _permissive_decoder.decode_simple_value(s) != s
         except ValueError:
             return True
 
